@@ -129,6 +129,7 @@ type Explorer struct {
 	idx     int
 	pc      []*Term
 	known   map[int]bool
+	idom    map[int]*intDom  // wider signed variables constrained only by comparisons with constants
 	dom     map[int]*byteDom // 8-bit variables constrained only by single-variable comparisons with constants
 	tangled map[int]bool     // variables that occur in a multi-variable / non-pattern path-condition conjunct
 	DomHits int
@@ -213,6 +214,146 @@ func satSet(c *Term) (*Term, *byteDom) {
 	return v, d
 }
 
+// ---- interval domain for wider signed variables: comparisons of one variable with a constant ----
+
+type intDom struct {
+	lo, hi int64
+	holes  []int64
+}
+
+func (d *intDom) empty() bool {
+	if d.lo > d.hi {
+		return true
+	}
+	span := uint64(d.hi - d.lo)
+	if span >= uint64(len(d.holes)) {
+		return false
+	}
+	n := 0
+	seen := map[int64]bool{}
+	for _, h := range d.holes {
+		if h >= d.lo && h <= d.hi && !seen[h] {
+			seen[h] = true
+			n++
+		}
+	}
+	return uint64(n) > span
+}
+
+// intAtom: c is (not)* cmp(var, const) or cmp(const, var) on a variable wider than 8 bits with a signed comparison or
+// equality. Returns the variable, a normalised relation of the variable to k ("lt","le","gt","ge","eq") and negation.
+func intAtom(c *Term) (*Term, string, int64, bool, bool) {
+	neg := false
+	for c.Op == "not" {
+		c = c.Args[0]
+		neg = !neg
+	}
+	if len(c.Args) != 2 {
+		return nil, "", 0, false, false
+	}
+	a, b := c.Args[0], c.Args[1]
+	var v, k *Term
+	varLeft := false
+	switch {
+	case a.Op == "var" && a.W > 8 && a.W <= 64 && b.Op == "const":
+		v, k, varLeft = a, b, true
+	case b.Op == "var" && b.W > 8 && b.W <= 64 && a.Op == "const":
+		v, k = b, a
+	default:
+		return nil, "", 0, false, false
+	}
+	kv := sext(k.K, k.W)
+	rel := ""
+	switch c.Op {
+	case "=":
+		rel = "eq"
+	case "bvslt":
+		rel = map[bool]string{true: "lt", false: "gt"}[varLeft]
+	case "bvsle":
+		rel = map[bool]string{true: "le", false: "ge"}[varLeft]
+	default:
+		return nil, "", 0, false, false
+	}
+	return v, rel, kv, neg, true
+}
+
+func fullInt(w int) *intDom {
+	if w >= 64 {
+		return &intDom{lo: -1 << 63, hi: 1<<63 - 1}
+	}
+	return &intDom{lo: -(int64(1) << uint(w-1)), hi: int64(1)<<uint(w-1) - 1}
+}
+
+// restrict d by (v rel k) being truth
+func (d *intDom) restrict(rel string, k int64, truth bool) *intDom {
+	n := &intDom{lo: d.lo, hi: d.hi, holes: d.holes}
+	if !truth {
+		switch rel {
+		case "lt":
+			rel = "ge"
+		case "le":
+			rel = "gt"
+		case "gt":
+			rel = "le"
+		case "ge":
+			rel = "lt"
+		case "eq":
+			n.holes = append(append([]int64{}, d.holes...), k)
+			for n.lo <= n.hi && n.isHole(n.lo) {
+				n.lo++
+			}
+			for n.lo <= n.hi && n.isHole(n.hi) {
+				n.hi--
+			}
+			return n
+		}
+	}
+	switch rel {
+	case "lt":
+		if k == -1<<63 {
+			n.lo, n.hi = 1, 0
+		} else if k-1 < n.hi {
+			n.hi = k - 1
+		}
+	case "le":
+		if k < n.hi {
+			n.hi = k
+		}
+	case "gt":
+		if k == 1<<63-1 {
+			n.lo, n.hi = 1, 0
+		} else if k+1 > n.lo {
+			n.lo = k + 1
+		}
+	case "ge":
+		if k > n.lo {
+			n.lo = k
+		}
+	case "eq":
+		if k < n.lo || k > n.hi || n.isHole(k) {
+			n.lo, n.hi = 1, 0
+		} else {
+			n.lo, n.hi = k, k
+		}
+	}
+	for n.lo <= n.hi && n.isHole(n.lo) {
+		n.lo++
+	}
+	for n.lo <= n.hi && n.isHole(n.hi) {
+		n.hi--
+	}
+	return n
+}
+
+func (d *intDom) isHole(x int64) bool {
+	for _, h := range d.holes {
+		if h == x {
+			return true
+		}
+	}
+	return false
+}
+
 func termVars(t *Term, acc map[int]bool, seen map[int]bool) {
 	if seen[t.ID] {
 		return
@@ -267,6 +408,22 @@ func (e *Explorer) noteDomain(c *Term) {
 		e.dom[v.ID] = cur.and(d)
 		return
 	}
+	if b := c; b.Op == "var" || (b.Op == "not" && b.Args[0].Op == "var") {
+		if b.Op == "not" {
+			b = b.Args[0]
+		}
+		if b.W == 0 && !e.tangled[b.ID] {
+			return
+		}
+	}
+	if v, rel, k, neg, ok := intAtom(c); ok && !e.tangled[v.ID] {
+		cur := e.idom[v.ID]
+		if cur == nil {
+			cur = fullInt(v.W)
+		}
+		e.idom[v.ID] = cur.restrict(rel, k, !neg)
+		return
+	}
 	// any other conjunct entangles its variables: domain reasoning is no longer complete for them
 	if qstat {
 		e.sh.mu.Lock()
@@ -278,11 +435,25 @@ func (e *Explorer) noteDomain(c *Term) {
 	for id := range acc {
 		e.tangled[id] = true
 		delete(e.dom, id)
+		delete(e.idom, id)
 	}
 }
 
 // domainDecide: (trueFeasible, falseFeasible, ok) from the byte domain alone; ok=false → ask the solver
 func (e *Explorer) domainDecide(c *Term) (bool, bool, bool) {
+	if c.Op == "var" && c.W == 0 && !e.tangled[c.ID] {
+		return true, true, true // a boolean variable not mentioned by any other conjunct (its value, once decided, is in 'known')
+	}
+	if v, rel, k, neg, ok := intAtom(c); ok {
+		if e.tangled[v.ID] {
+			return false, false, false
+		}
+		cur := e.idom[v.ID]
+		if cur == nil {
+			cur = fullInt(v.W)
+		}
+		return !cur.restrict(rel, k, !neg).empty(), !cur.restrict(rel, k, neg).empty(), true
+	}
 	v, d := satSet(c)
 	if v == nil || e.tangled[v.ID] {
 		return false, false, false
@@ -535,6 +706,12 @@ func (e *Explorer) decomposable(c *Term, depth int) bool {
 		return e.decomposable(c.Args[0], depth+1) && e.decomposable(c.Args[1], depth+1)
 	case "ite":
 		return c.W == 0 && e.decomposable(c.Args[0], depth+1) && e.decomposable(c.Args[1], depth+1) && e.decomposable(c.Args[2], depth+1)
+	}
+	if c.Op == "var" && c.W == 0 {
+		return !e.tangled[c.ID]
+	}
+	if v, _, _, _, ok := intAtom(c); ok {
+		return !e.tangled[v.ID]
 	}
 	v, _ := satSet(c)
 	return v != nil && !e.tangled[v.ID]
@@ -824,6 +1001,7 @@ func (e *Explorer) runPath(p []decision, fn func()) {
 	e.pc = e.pc[:0]
 	e.known = map[int]bool{}
 	e.dom = map[int]*byteDom{}
+	e.idom = map[int]*intDom{}
 	e.tangled = map[int]bool{}
 	e.vars = e.vars[:0]
 	e.steps = 0
